@@ -12,8 +12,16 @@
 (* tensor for every prefix.                                                *)
 (***************************************************************************)
 EXTENDS GaussMat, Diagrams
-CONSTANT DimOf      \* sequence: DimOf[n] = dimension of the atom named n
-TyDims(t) == Norm1([k \in 1..Len(t) |-> DimOf[t[k][1]]])
+CONSTANT DimOf      \* sequence: DimOf[n] = the Dim (sequence of dimensions) the atom named n is sent to, whatever its winding
+RECURSIVE FlatDims(_)
+FlatDims(t) == IF t = <<>> THEN <<>> ELSE DimOf[t[1][1]] \o FlatDims(Tail(t))
+TyDims(t) == Norm1(FlatDims(t))
+\* the object map ignores windings, so the image of x.r is the image of x: cups and caps exist only on atoms whose
+\* image is its own mirror image (Dim(2, 3) has no cup with itself - the library refuses it)
+Palindrome(D) == D = RevSeq(D)
+CupsDefined(dd) == \A k \in 1..Len(dd.boxes) :
+   /\ dd.boxes[k].kind = 2 => Palindrome(TyDims(<<dd.boxes[k].dom[1]>>))
+   /\ dd.boxes[k].kind = 3 => Palindrome(TyDims(<<dd.boxes[k].cod[1]>>))
 \* generic array of box number s: entries depend on row, column and s; not symmetric
 Gen(s, dm, cd) == T(dm, cd, LAMBDA r, c : <<1 + 2 * r + 3 * c + 7 * s + ((r * c + s) % 5), r - 2 * c + s>>)
 BoxT(b) ==
